@@ -242,21 +242,23 @@ VARIANTS = {
     "fr-R1-size-test-reordered": ("frame.rs", rep(FR, FSIZE, "if frame.len() < 5 || frame[4] > 8 || frame.len() != frame[4] as usize + 5 {"), None),
     "fr-R2-mask-hex": ("frame.rs", rep(FR, "let start_frame_flag = ((frame[0] >> 6) & 0x01) != 0;", "let start_frame_flag = ((frame[0] >> 6) & 1) != 0;"), None),
     "fr-R3-data-len-first": ("frame.rs", rep(FR, "        let device_address = ((frame[2] as u16) << 8) | frame[3] as u16;\n        let data_len = frame[4];", "        let data_len = frame[4];\n        let device_address = ((frame[2] as u16) << 8) | frame[3] as u16;"), None),
-    "fr-B1-length-above-8-accepted": ("frame.rs", rep(FR, FSIZE, "if frame.len() < 5 || frame.len() != frame[4] as usize + 5 {"), "src_fromUsartBody_eq"),   # the defect D2 of the pinned tree
-    "fr-B2-index-before-length-test": ("frame.rs", rep(FR, FSIZE, "if frame.len() != frame[4] as usize + 5 || frame.len() < 5 || frame[4] > 8 {"), "src_fromUsartBody_eq"),
-    "fr-B3-start-bit-5": ("frame.rs", rep(FR, "let start_frame_flag = ((frame[0] >> 6) & 0x01) != 0;", "let start_frame_flag = ((frame[0] >> 5) & 0x01) != 0;"), "src_fromUsartBody_eq"),
-    "fr-B4-id-kinds-swapped": ("frame.rs", rep(FR, "        let frame_id = if start_frame_flag {\n            FrameId::LastFrameId((((frame[0] & 0x0f) as u16) << 8) | frame[1] as u16)\n        } else {\n            FrameId::CurrentFrameId(", "        let frame_id = if !start_frame_flag {\n            FrameId::LastFrameId((((frame[0] & 0x0f) as u16) << 8) | frame[1] as u16)\n        } else {\n            FrameId::CurrentFrameId("), "src_fromUsartBody_eq"),
-    "fr-B5-address-shift-in-u8": ("frame.rs", rep(FR, "let device_address = ((frame[2] as u16) << 8) | frame[3] as u16;", "let device_address = ((frame[2] << 8) as u16) | frame[3] as u16;"), "src_fromUsartBody_eq"),
-    "fr-B6-data-from-4": ("frame.rs", rep(FR, "data[i] = frame[i + 5];", "data[i] = frame[i + 4];"), "src_fromUsartBody_eq"),
+    "fr-B1-length-above-8-accepted": ("frame.rs", rep(FR, FSIZE, "if frame.len() < 5 || frame.len() != frame[4] as usize + 5 {"), "src_fromUsartBody_agrees"),   # the defect D2 of the pinned tree
+    "fr-B2-index-before-length-test": ("frame.rs", rep(FR, FSIZE, "if frame.len() != frame[4] as usize + 5 || frame.len() < 5 || frame[4] > 8 {"), "src_fromUsartBody_agrees"),
+    "fr-B3-start-bit-5": ("frame.rs", rep(FR, "let start_frame_flag = ((frame[0] >> 6) & 0x01) != 0;", "let start_frame_flag = ((frame[0] >> 5) & 0x01) != 0;"), "src_fromUsartBody_agrees"),
+    "fr-B4-id-kinds-swapped": ("frame.rs", rep(FR, "        let frame_id = if start_frame_flag {\n            FrameId::LastFrameId((((frame[0] & 0x0f) as u16) << 8) | frame[1] as u16)\n        } else {\n            FrameId::CurrentFrameId(", "        let frame_id = if !start_frame_flag {\n            FrameId::LastFrameId((((frame[0] & 0x0f) as u16) << 8) | frame[1] as u16)\n        } else {\n            FrameId::CurrentFrameId("), "src_fromUsartBody_agrees"),
+    "fr-B5-address-shift-in-u8": ("frame.rs", rep(FR, "let device_address = ((frame[2] as u16) << 8) | frame[3] as u16;", "let device_address = ((frame[2] << 8) as u16) | frame[3] as u16;"), "src_fromUsartBody_agrees"),
+    "fr-B6-data-from-4": ("frame.rs", rep(FR, "data[i] = frame[i + 5];", "data[i] = frame[i + 4];"), "src_fromUsartBody_agrees"),
     # ---- frame.rs: from_bxcan_frame
     "cn-R1-mask-1": ("frame.rs", rep(FR, "let not_error_flag = ((id >> 28) & 0x0001) != 0;", "let not_error_flag = ((id >> 28) & 1) != 0;"), None),
     "cn-R2-lets-reordered": ("frame.rs", rep(FR, "            let frame_id_nibble = ((id >> 16) & 0x000f) as u16;\n            let device_address = ((id >> 0) & 0xffff) as u16;", "            let device_address = ((id >> 0) & 0xffff) as u16;\n            let frame_id_nibble = ((id >> 16) & 0x000f) as u16;"), None),
     "cn-R3-address-without-shift": ("frame.rs", rep(FR, "let device_address = ((id >> 0) & 0xffff) as u16;", "let device_address = (id & 0xffff) as u16;"), None),
-    "cn-B1-nibble-unmasked": ("frame.rs", rep(FR, "let frame_id_nibble = ((id >> 16) & 0x000f) as u16;", "let frame_id_nibble = ((id >> 16) & 0x00ff) as u16;"), "src_fromCan_eq"),
-    "cn-B2-zero-length-check-dropped": ("frame.rs", rep(FR, "                    if data_len == 0 {\n                        return Err(FrameError::FrameIdMissing);\n                    }\n\n", ""), "src_fromCan_eq"),
-    "cn-B3-single-keeps-start-flag": ("frame.rs", rep(FR, "                    let start_frame_flag = true;\n", ""), "src_fromCan_eq"),
-    "cn-B4-multi-bit-25": ("frame.rs", rep(FR, "let multi_frame_flag = ((id >> 26) & 0x0001) != 0;", "let multi_frame_flag = ((id >> 25) & 0x0001) != 0;"), "src_fromCan_eq"),
-    "cn-B5-id-from-second-byte": ("frame.rs", rep(FR, "FrameId::LastFrameId((frame_id_nibble << 8) | data[0] as u16)", "FrameId::LastFrameId((frame_id_nibble << 8) | data[1] as u16)"), "src_fromCan_eq"),
+    "cn-B1-nibble-unmasked": ("frame.rs", rep(FR, "let frame_id_nibble = ((id >> 16) & 0x000f) as u16;", "let frame_id_nibble = ((id >> 16) & 0x00ff) as u16;"), "src_fromCan_agrees"),
+    "cn-B2-zero-length-check-dropped": ("frame.rs", rep(FR, "                    if data_len == 0 {\n                        return Err(FrameError::FrameIdMissing);\n                    }\n\n", ""), "src_fromCan_agrees"),
+    "cn-B3-single-keeps-start-flag": ("frame.rs", rep(FR, "                    let start_frame_flag = true;\n", ""), "src_fromCan_agrees"),
+    "cn-B4-multi-bit-25": ("frame.rs", rep(FR, "let multi_frame_flag = ((id >> 26) & 0x0001) != 0;", "let multi_frame_flag = ((id >> 25) & 0x0001) != 0;"), "src_fromCan_agrees"),
+    "cn-B5-id-from-second-byte": ("frame.rs", rep(FR, "FrameId::LastFrameId((frame_id_nibble << 8) | data[0] as u16)", "FrameId::LastFrameId((frame_id_nibble << 8) | data[1] as u16)"), "src_fromCan_agrees"),
+    "cn-R4-remote-reported-as-standard": ("frame.rs", rep(FR, "                Err(FrameError::FrameIsRemote)", "                Err(FrameError::FrameIsStandard)"), None),   # another applicable-looking reason: acceptance unchanged
+    "fr-R4-size-reported-as-cobs-error": ("frame.rs", rep(FR, FSIZE + "\n            return Err(FrameError::WrongSize);", FSIZE + "\n            return Err(FrameError::CobsError);"), None),
     # ---- frame.rs: to_bxcan_frame
     "ce-R1-address-unmasked-first": ("frame.rs", rep(FR, "        id |= (self.not_error_flag as u32) << 28;\n        id |= (self.start_frame_flag as u32) << 27;", "        id |= (self.start_frame_flag as u32) << 27;\n        id |= (self.not_error_flag as u32) << 28;"), None),
     "ce-B1-start-bit-26": ("frame.rs", rep(FR, "id |= (self.start_frame_flag as u32) << 27;", "id |= (self.start_frame_flag as u32) << 26;"), "src_toCan_eq"),
